@@ -60,6 +60,8 @@ def gen_world(rng):
     files, entries, tables, paras = [], [], [], []
     glob_kind = rng.wpick([(5, "none"), (4, "toml"), (2, "dep5")])
     n = rng.randint(3, 9)
+    if rng.chance(0.12):
+        n = rng.randint(18, 45)  # more covered files than workers (and than 4 x workers): chunks of several files
     for i in range(n):
         d = rng.pick(["", "src", "src/core", "docs", "docs"])
         style = rng.pick(STYLES)
@@ -224,6 +226,13 @@ def gen_world(rng):
             entries.append({"path": ".gitignore", "kind": "plain", "c": [], "l": [], "reads": ".gitignore"})
             defects.append(("no-info", ".gitignore"))
             ignored = ["build/gen.py", "scratch.tmp"]
+            if rng.chance(0.6):
+                # tracked although it matches an ignore pattern (git add -f, or ignored after it was committed):
+                # Git does not ignore tracked files, so it is a covered file like any other
+                files.append({"path": "legacy.tmp", "content": "tracked despite the ignore pattern\n"})
+                entries.append({"path": "legacy.tmp", "kind": "plain", "c": [], "l": [], "reads": "legacy.tmp"})
+                defects.append(("no-info", "legacy.tmp"))
+                world["git"]["force_add"] = ["legacy.tmp"]
     return world, entries, lic_files, defects, ignored
 
 
